@@ -468,3 +468,270 @@ def _eval_flag(test, p, case_cls, anc, stopping):
     if norm(test) == "self._stopping":
         return stopping
     return None
+
+
+# ---------------------------------------------------------------------------------------------------------------
+# matching modulo definitions: a rule that matches on the *shape* of an expression first expands the local
+# temporaries, module constants and class constants it mentions, so that introducing (or removing) a name for a
+# sub-expression does not change what the rule sees.
+_PURE_FUNCS = {"len", "isinstance", "min", "max", "int", "abs", "bool", "type", "bytearray", "bytes", "float"}
+
+
+def _pure_expr(e):
+    if isinstance(e, (ast.Constant, ast.Name)):
+        return True
+    if isinstance(e, ast.Attribute):
+        return _pure_expr(e.value)
+    if isinstance(e, ast.UnaryOp):
+        return _pure_expr(e.operand)
+    if isinstance(e, ast.BinOp):
+        return _pure_expr(e.left) and _pure_expr(e.right)
+    if isinstance(e, ast.BoolOp):
+        return all(_pure_expr(v) for v in e.values)
+    if isinstance(e, ast.Compare):
+        return _pure_expr(e.left) and all(_pure_expr(c) for c in e.comparators)
+    if isinstance(e, ast.IfExp):
+        return _pure_expr(e.test) and _pure_expr(e.body) and _pure_expr(e.orelse)
+    if isinstance(e, (ast.Tuple, ast.List)):
+        return all(_pure_expr(x) for x in e.elts)
+    if isinstance(e, ast.Subscript):
+        return _pure_expr(e.value) and _pure_expr(e.slice)
+    if isinstance(e, ast.Slice):
+        return all(x is None or _pure_expr(x) for x in (e.lower, e.upper, e.step))
+    if isinstance(e, ast.Call) and isinstance(e.func, ast.Name) and e.func.id in _PURE_FUNCS and not e.keywords:
+        return all(_pure_expr(a) for a in e.args)
+    if isinstance(e, ast.Call) and isinstance(e.func, ast.Attribute) and not e.keywords:
+        base = attr_chain(e.func)
+        if base in _PURE_QUALIFIED or (e.func.attr in _PURE_METHODS and _pure_expr(e.func.value)):
+            return all(_pure_expr(a) for a in e.args)
+    return False
+
+
+_PURE_QUALIFIED = {"struct.pack", "struct.calcsize", "struct.unpack", "zlib.crc32"}
+_PURE_METHODS = {"format", "encode", "decode", "startswith", "endswith", "get", "check"}
+
+
+def holds_mod(prog, func, facts, text, pol=True):
+    """Is the fact (text, pol) among `facts` modulo expansion of local temporaries and constants on both sides?"""
+    if (text, pol) in facts:
+        return True
+    try:
+        want = norm(expand(prog, func, ast.parse(text, mode="eval").body), 400)
+    except SyntaxError:
+        return False
+    for t, p in facts:
+        if p != pol:
+            continue
+        try:
+            got = norm(expand(prog, func, ast.parse(t, mode="eval").body), 400)
+        except SyntaxError:
+            continue
+        if got == want:
+            return True
+    return False
+
+
+def local_store_counts(func):
+    """name -> number of binding sites in func's own scope (parameters count as one)."""
+    counts = {}
+    for p in func.params:
+        counts[p] = counts.get(p, 0) + 1
+    for n in walk_body_shallow(func.body):
+        if isinstance(n, ast.Name) and isinstance(n.ctx, (ast.Store, ast.Del)):
+            counts[n.id] = counts.get(n.id, 0) + 1
+        elif isinstance(n, ast.ExceptHandler) and n.name:
+            counts[n.name] = counts.get(n.name, 0) + 1
+        elif isinstance(n, (ast.FunctionDef, ast.AsyncFunctionDef, ast.ClassDef)):
+            counts[n.name] = counts.get(n.name, 0) + 1
+        elif isinstance(n, (ast.Global, ast.Nonlocal)):
+            for x in n.names:
+                counts[x] = counts.get(x, 0) + 2
+    # a nested function that rebinds the name through `nonlocal`
+    for g in list(func.nested.values()):
+        for n in walk_body_shallow(g.body):
+            if isinstance(n, ast.Nonlocal):
+                for x in n.names:
+                    counts[x] = counts.get(x, 0) + 2
+    return counts
+
+
+def single_defs(func):
+    """name -> value expr for locals bound exactly once in func by a plain `name = E` (or `name: T = E`)."""
+    memo = getattr(func, "_single_defs", None)
+    if memo is not None:
+        return memo
+    counts = local_store_counts(func)
+    out = {}
+    for n in walk_body_shallow(func.body):
+        if isinstance(n, ast.Assign) and len(n.targets) == 1 and isinstance(n.targets[0], ast.Name):
+            if counts.get(n.targets[0].id) == 1:
+                out[n.targets[0].id] = n.value
+        elif isinstance(n, ast.AnnAssign) and isinstance(n.target, ast.Name) and n.value is not None:
+            if counts.get(n.target.id) == 1:
+                out[n.target.id] = n.value
+    func._single_defs = out
+    return out
+
+
+def _config_attr(prog, func, attr):
+    """self.<attr> is written nowhere in the class family outside __init__ (configuration-like, stable)."""
+    if func.cls is None:
+        return False
+    for f, kind, _n in prog.attr_accesses(func.cls, attr):
+        if kind != "read" and f.name != "__init__":
+            return False
+    return True
+
+
+def _stable_value(prog, func, e, counts):
+    """May the single definition `x = e` be substituted at every use of x?  e is pure, its local names are bound
+    once, and the attributes it reads are not written by this function (or are configuration-like)."""
+    if not _pure_expr(e):
+        return False
+    for n in ast.walk(e):
+        if isinstance(n, ast.Name) and isinstance(n.ctx, ast.Load):
+            if counts.get(n.id, 0) > 1:
+                return False
+    attrs = [n for n in ast.walk(e) if isinstance(n, ast.Attribute)]
+    if attrs and prog is not None:
+        scope = func
+        while scope.parent is not None:
+            scope = scope.parent
+        written = prog.writes(scope) if scope.cls is not None else set()
+        gen = scope.is_generator or func.is_generator
+        for a in attrs:
+            sa = self_attr(a)
+            if sa is None:
+                # attribute of a local object (req.messages, failure.value): stable unless assigned here
+                base = attr_chain(a)
+                if base is None:
+                    return False
+                continue
+            if _config_attr(prog, func, sa):
+                continue
+            if sa in written or gen:
+                return False
+    return True
+
+
+def module_const(func, name):
+    m = func.module
+    if name in m.constants and name not in m.funcs and name not in m.classes:
+        # assigned once at module level?
+        n = sum(1 for st in m.tree.body if isinstance(st, ast.Assign) and any(
+            isinstance(t, ast.Name) and t.id == name for t in st.targets))
+        if n == 1:
+            return m.constants[name]
+    return None
+
+
+def class_const(prog, func, attr):
+    """Value of a class-level constant `attr` of func's class family (never assigned on self in any method)."""
+    if func.cls is None or prog is None:
+        return None
+    for c in prog.mro(func.cls):
+        if attr in c.class_attrs:
+            for f, kind, _n in prog.attr_accesses(func.cls, attr):
+                if kind != "read":
+                    return None
+            return c.class_attrs[attr]
+    return None
+
+
+class _Expander(ast.NodeTransformer):
+    def __init__(self, prog, func, depth, consts, calls=False):
+        self.prog, self.func, self.depth, self.consts, self.calls = prog, func, depth, consts, calls
+        self.scopes = []
+        f = func
+        while f is not None:
+            self.scopes.append((f, single_defs(f), local_store_counts(f)))
+            f = f.parent
+
+    def visit_Name(self, node):
+        if not isinstance(node.ctx, ast.Load) or self.depth <= 0:
+            return node
+        for f, defs, counts in self.scopes:
+            if node.id in counts:
+                v = defs.get(node.id)
+                if v is not None and (_stable_value(self.prog, f, v, counts) or (self.calls and _value_flow_ok(v, counts))):
+                    sub = _Expander(self.prog, f, self.depth - 1, self.consts, self.calls)
+                    return sub.visit(_copy_expr(v))
+                return node
+        if self.consts:
+            v = module_const(self.func, node.id)
+            if v is not None and _pure_expr(v) and not isinstance(v, ast.Name):
+                sub = _Expander(self.prog, self.func, self.depth - 1, self.consts)
+                sub.scopes = []
+                return sub.visit(_copy_expr(v))
+        return node
+
+    def visit_Attribute(self, node):
+        if self.consts and isinstance(node.ctx, ast.Load) and isinstance(node.value, ast.Name) and self.depth > 0:
+            if node.value.id in ("self", "cls") or (self.func.cls is not None and node.value.id == self.func.cls.name):
+                v = class_const(self.prog, self.func, node.attr)
+                if v is not None and isinstance(v, ast.Constant):
+                    return ast.copy_location(_copy_expr(v), node)
+        return self.generic_visit(node)
+
+    def visit_Lambda(self, node):
+        return node
+
+
+def _copy_expr(e):
+    import copy
+
+    return copy.deepcopy(e)
+
+
+def _value_flow_ok(v, counts):
+    """value-flow view: `x = <any expression>` bound once; the expansion shows where the value of x comes from (it is
+    not a claim about when the expression is evaluated)."""
+    if any(isinstance(n, (ast.Yield, ast.YieldFrom, ast.Await, ast.Lambda)) for n in ast.walk(v)):
+        return False
+    return all(counts.get(n.id, 0) <= 1 for n in ast.walk(v) if isinstance(n, ast.Name) and isinstance(n.ctx, ast.Load))
+
+
+def expand(prog, func, expr, depth=5, consts=True, calls=False):
+    """expr with local temporaries (single pure definition), module constants and class constants replaced by their
+    definitions.  The result denotes the same value at every use the original did.  calls=True also follows locals
+    bound once to an arbitrary expression (value-flow view: which computation a value comes from)."""
+    return _Expander(prog, func, depth, consts, calls).visit(_copy_expr(expr))
+
+
+def at(ctx, func, node_id, expr, kill_on_suspend=True, calls=False):
+    """Flow-sensitive resolution of `expr` as evaluated at CFG node `node_id`: definition facts holding there
+    (aliases, pure temporaries), then single-definition expansion and constants."""
+    from ..cfg import resolve_at
+
+    facts = ctx.facts(func, kill_on_suspend=kill_on_suspend) if not kill_on_suspend else ctx.facts(func)
+    return expand(ctx.prog, func, resolve_at(facts[node_id], expr), calls=calls)
+
+
+def const_value(prog, func, expr):
+    """Integer/str/bytes value of an expression after expansion, or None."""
+    try:
+        e = expand(prog, func, expr)
+        return _eval_const(e)
+    except Exception:  # noqa: BLE001 - any failure means "not a constant"
+        return None
+
+
+def _eval_const(e):
+    if isinstance(e, ast.Constant):
+        return e.value
+    if isinstance(e, ast.UnaryOp):
+        v = _eval_const(e.operand)
+        if v is None:
+            return None
+        return {ast.USub: lambda x: -x, ast.UAdd: lambda x: +x, ast.Invert: lambda x: ~x, ast.Not: lambda x: not x}[type(e.op)](v)
+    if isinstance(e, ast.BinOp):
+        a, b = _eval_const(e.left), _eval_const(e.right)
+        if a is None or b is None:
+            return None
+        ops = {ast.Add: lambda x, y: x + y, ast.Sub: lambda x, y: x - y, ast.Mult: lambda x, y: x * y,
+               ast.Pow: lambda x, y: x ** y if abs(y) < 128 else None, ast.LShift: lambda x, y: x << y if y < 128 else None,
+               ast.RShift: lambda x, y: x >> y, ast.BitAnd: lambda x, y: x & y, ast.BitOr: lambda x, y: x | y,
+               ast.BitXor: lambda x, y: x ^ y, ast.FloorDiv: lambda x, y: x // y, ast.Mod: lambda x, y: x % y}
+        fn = ops.get(type(e.op))
+        return fn(a, b) if fn else None
+    return None
